@@ -47,10 +47,16 @@ def gen_world(rng, n, for_sheet):
         W["ms"].append(rng.random() < 0.2)
         st = base + rng.randint(0, 20) * 1440 + rng.choice([0, 0, 540, 615, 1439])
         W["start"].append(st)
-        W["end"].append(st if W["ms"][-1] else st + rng.choice([0, 45, 1440, 3 * 1440 + 60]))
+        # (a task flagged as milestone need not have zero duration: a summary keeps its span whatever its flag says)
+        W["end"].append(st if W["ms"][-1] and rng.random() < 0.6 else st + rng.choice([0, 45, 1440, 3 * 1440 + 60]))
         W["sec"].append(0 if nsec == 0 or rng.random() < 0.3 else rng.randint(1, nsec))
     if rng.random() < 0.4:
-        W["ext"][rng.randrange(n)] = [900 + rng.randint(0, 5)]
+        i = rng.randrange(n)
+        W["ext"][i] = [900 + rng.randint(0, 5)]
+        if W["pre"][i] and rng.random() < 0.4 and not for_sheet:
+            # an outside predecessor whose id equals the id of an inside predecessor of the same task
+            # (even number: a member of another WBS; an odd one would be free-standing - both are fine)
+            W["ext"][i] = [ids[W["pre"][i][0] - 1]]
     # sheets only: some top-level subtrees live in a SECOND WBS (home 2), so that lists of linked tasks mix
     # rows of two WBSs and links leave the WBS in both directions
     W["home"] = [1] * n
@@ -61,6 +67,12 @@ def gen_world(rng, n, for_sheet):
                 for t in range(1, n + 1):
                     if _under(W, t, r):
                         W["home"][t - 1] = 2
+        # ids are unique within a WBS only: tasks of the second WBS may carry ids of the first
+        free = [W["ids"][t] for t in range(n) if W["home"][t] == 1]
+        rng.shuffle(free)
+        for t in range(n):
+            if W["home"][t] == 2 and free and rng.random() < 0.5:
+                W["ids"][t] = free.pop()
         for _ in range(6):          # links that cross the two WBSs, in both directions
             s, p = rng.randint(1, n), rng.randint(1, n)
             if (W["home"][s - 1] != W["home"][p - 1] and es.legal_link(tasks, s, p)
@@ -91,6 +103,9 @@ def build(W, hook=None):
             kw["network_bar_style"] = {"fill": "#eee", "stroke": "#333"}
         if i % 4 == 1:
             kw["gantt_text_style"] = {"fill": "white"}
+        if i % 5 == 2:
+            # custom attributes that are called like fields of the renderers' own entries
+            kw.update(progress=25, text="junk", type="project", open="no", start_date="x", css_class="y")
         objs.append(pj.Task(W["ids"][i], name=NAMES[W["name"][i]], start=inst(W["start"][i]), end=inst(W["end"][i]),
                             milestone=W["ms"][i], estimate=(0, 8, 2.5, 16)[i % 4], spent=(0, 3, 9, None)[i % 4],
                             resource=("ann", None, "bob")[i % 3], **kw))
@@ -117,7 +132,7 @@ def build(W, hook=None):
                 continue
             ps = [objs[p - 1] for p in pre]
             for x in W["ext"][i]:
-                if x % 3 == 0:
+                if x % 3 == 0 and x not in W["ids"]:
                     # a descendant of a subtree of THIS wbs that is removed afterwards
                     top = w // pj.Task(5000 + x, name="gone")
                     ps.append(top // pj.Task(x, name="outside"))
@@ -299,7 +314,8 @@ FIELD_SETS = [None, ["id", "name"], ["name", "id", "parent", "predecessors"], ["
               # names that are members of Task but no stored attributes are unknown fields like any other
               ["id", "wbs", "name", "children"], ["id", "name", "all_children", "clone", "successors"],
               ["id", "to_dict", "Children", "name", "all_parents", "predecessors"], ["id", "successors", "predecessors"]]
-THEMES = [None, {"header_color": "92m", "level_colors": ["94m"]}, {"level_colors": []}]
+THEMES = [None, {"header_color": "92m", "level_colors": ["94m"]}, {"level_colors": []},
+          {"header_color": None, "level_colors": [None, "94m", None]}]        # None: that cell is not coloured
 # a print call that is refused (theme without level colours) or one that succeeds, made BEFORE the judged one:
 # what a sheet looks like must not depend on earlier calls
 PRELUDES = [None, None, "refused", "other"]
